@@ -826,7 +826,8 @@ class LibsModel:
         if ty == 'DataFrameIterrows':
             df = it.of
             return AV(ty='tuple', elts=[AV(ty='int', idx=('ROWPOS',), rows_of=df.only('sorted_by', 'sliced')),
-                                        AV(ty='Row', cols=df.cols, deps=df.deps, store='fresh', frame_sorted_by=df.sorted_by)])
+                                        AV(ty='Row', cols=df.cols, deps=df.deps, store='fresh', frame_sorted_by=df.sorted_by,
+                                           scan=getattr(node, 'lineno', None))])
         if ty == 'DataFrameGroupBy':
             df = it.of
             return AV(ty='tuple', elts=[AV(ty='int', idx=('ATOM',)), df.w(grouped=it.by or True)])
